@@ -126,6 +126,10 @@ def ulps_for(prog):
 def compare(lazy_reader, E, n, fam, with_cols, ulps=4):
     """Index a lazy reader every way of the mini alphabet; return the first disagreement."""
     def arr_equal(a, b):
+        # byte order is not part of the comparison (as in C01: the loaded array is native)
+        if isinstance(a, np.ndarray) and isinstance(b, np.ndarray):
+            a = a.astype(a.dtype.newbyteorder('='))
+            b = b.astype(b.dtype.newbyteorder('='))
         return arr_equal_ulp(a, b, ulps)
     checked = 0
     for rname, r in row_ops(n, fam):
@@ -356,6 +360,12 @@ def roots(ctx):
             i += 1
     # integer samples close to the limits of their type: every intermediate result of a program wraps
     # as the eager expression does (a deferred program must not be simplified algebraically)
+    # a sample type whose byte order is not the native one; a recording with fewer samples than channels
+    out.append({'backend': 'flat', 'dtype': '>i2', 'n_channels': 3, 'offset': 0, 'parts': [2, 3],
+                'sample_rate': 2 / 600.0, 'fill': ctx.seed + i, 'chunk': 2})
+    out.append({'backend': ['array', 'npy'][ctx.seed % 2], 'dtype': 'int16', 'n_channels': 3, 'offset': 0,
+                'parts': [2], 'sample_rate': 2 / 600.0, 'fill': ctx.seed + i + 1, 'chunk': 2})
+    i += 2
     # a recording in three files (bounds of the third part)
     out.append({'backend': 'flat', 'dtype': 'int16', 'n_channels': 3, 'offset': 0, 'parts': [1, 2, 2],
                 'sample_rate': 2 / 600.0, 'fill': ctx.seed + i, 'chunk': 2})
@@ -397,8 +407,10 @@ def explore(ctx):
                        'and no claim (and its extensions are not explored)',
                        'np.errstate(all=ignore) on both sides', 'scalars are Python int/float']
     cases = []
-    for lay in roots(ctx):
+    for li, lay in enumerate(roots(ctx)):
         for f in range(len(ops)):
+            if li >= 16 and not ctx.thorough and (f + li + ctx.seed) % 3:
+                continue      # quick: the special roots (beyond the 4 x 4 grid) start from every third op
             cases.append({'kind': 'programs', 'layout': lay, 'first': f, 'depth': depth})
     ctx.run_cases(run_case, cases, chunk=1 if ctx.thorough else 4, sweep='programs')
     cases = [{'kind': 'trees', 'layout': lay, 'derivations': deriv} for lay in roots(ctx)]
